@@ -153,9 +153,42 @@ PROP["manifest"]["level_text"] += (
 )
 
 # ---- a Poll in flight across a SECOND Subscribe of the same BaseClient, then Close (go/vcorr/rc_pxr.go) ----
+# (the assumption that stood here -- "judged by the harness monitor on the real BaseClient only, not proved" -- is
+# obsolete: modelled in Model/ClientResub.lean and proved in Props/C18Resub.lean, see below)
+
+# --- bPXR: one BaseClient, several transports: Subscribe again while a Poll is in flight, then Close
+PROP["modules"] += ["Gnmi.Props.C18Resub"]
+PROP["theorems"] += ["Gnmi.C18Resub." + t for t in [
+    "cinv_reach", "after_close_at_most_one", "after_close_crit_at_most_one", "closed_stays_set",
+    "run_terminates", "poll_returns", "replaced_transport_closed", "pxrFinal_reach",
+    "pxr_scenario_reachable", "mutant_installed_only_delivers_all", "repository_same_schedules",
+    "resubscribe_after_close_reopens"]] + [
+    "Gnmi.ClientResub." + t for t in ["stepFn_sound", "runFn_sound"]]
 PROP["assumptions"] += [
-    "a Poll caller reading from the transport of an EARLIER Subscribe while a later Subscribe installs a new one and "
-    "Close follows (`rc new pxr <k>`) is outside Model/ClientPoll.lean (one installed Impl per Poll caller): the "
-    "after-Close bound for it (at most one further update of the earlier transport's buffered answer reaches the "
-    "application once Close has returned) is judged by the harness monitor on the real BaseClient only, not proved",
+    "BaseClient with several transports (Model/ClientResub.lean, client/client.go:112-222): the mu regions of "
+    "Subscribe (140-147), Close (169-175), Impl (180-185) and run's RLock (208-210) are single transitions (every "
+    "access to closed/clientImpl is inside one; a concurrent Recv does not read them, so it commutes out of a "
+    "region); Close returns in a second transition. Hypothesis on the Impl: a message received before Impl.Close is "
+    "still handed out by Recv afterwards, Recv on a closed drained transport fails, nothing is received on a closed "
+    "transport, Recv on an open empty transport blocks (a gRPC stream; pxrImpl of go/vcorr/rc_pxr.go); the handler "
+    "returns nil; Poll-type query (the sync marker ends run with nil)",
+    "remark (code behaviour, not a defect): BaseClient.Subscribe sets c.closed = false (client.go:146), so a "
+    "Subscribe AFTER Close re-opens delivery for a Poll caller still reading a replaced transport "
+    "(C18Resub.resubscribe_after_close_reopens; `rc new pxr <k> after` observes `reopened` on the real BaseClient); "
+    "after_close_at_most_one is stated for runs without a Subscribe after Close's critical section",
 ]
+PROP["manifest"]["level_text"] += (
+    " A Poll in flight across a second Subscribe of the same BaseClient, then Close (Props/C18Resub.lean; LTS "
+    "Model/ClientResub.lean: one BaseClient with closed / clientImpl, any number of transports with any buffered "
+    "content and arrivals, any number of Subscribe, Poll and Close callers, every interleaving): as long as no "
+    "Subscribe installs an Impl after Close's critical section, every caller's run loop - on the installed or a "
+    "replaced transport - enters the handler at most once after Close returned (after_close_at_most_one); every "
+    "transport somebody still reads is the installed one or closed, so with closed set every run loop returns by "
+    "its own transitions within 3*buffered+3 (run_terminates, poll_returns). The variant of seeded change "
+    "c18_seed10 (run honouring closed only for the installed Impl) is refuted by decided runs delivering all k = 3 "
+    "updates after Close returned (mutant_installed_only_delivers_all); a Subscribe after Close re-opens delivery "
+    "(resubscribe_after_close_reopens: code behaviour, recorded as a remark). Tied to client/client.go by `rc new "
+    "pxr <k> [mid|before|none|after]`: the real BaseClient over scripted transports, the first update's handler "
+    "held across Subscribe #2 / Close; verdict and the counts after=<n> total=<m> compared with the model's "
+    "schedule (pxrFinal_reach)."
+)
